@@ -329,6 +329,11 @@ func (vc *VC) instCandidates(sks []Term, env *Env) []Term {
 			push(sub(sk, d))
 		}
 	}
+	// the integer locals themselves (e.g. the current loop index): a quantified
+	// assumption is often needed at the element the loop body just handled
+	for _, d := range deltas[1:] {
+		push(d)
+	}
 	return out
 }
 
